@@ -93,10 +93,26 @@ def set_point(p, pt):
         p.set_val(k, v)
 
 
+def point_of(model, key):
+    """a design point: an index into model.points, or ('mix', base, other, name): the base point with the single input
+    'name' taken from the other point ('only one thing changed')"""
+    if isinstance(key, (list, tuple)):
+        _, base, other, name = key
+        pt = dict(model.points[base])
+        pt[name] = model.points[other][name]
+        return pt
+    return model.points[key]
+
+
 def apply_op(p, model, op, st):
     """st: harness-side flags {k: current point or None, consistent: bool, chk: bool}"""
     kind = op[0]
-    if kind == "goto":
+    if kind == "gotom":
+        key = ("mix", op[1], op[2], op[3])
+        set_point(p, point_of(model, key))
+        p.run_model()
+        st.update(k=key, consistent=True)
+    elif kind == "goto":
         set_point(p, model.points[op[1]])
         p.run_model()
         st.update(k=op[1], consistent=True)
@@ -142,7 +158,7 @@ def reference(model, mode, k):
     if key not in _REF:
         p = model.build(mode)
         st = dict(k=None, consistent=False, chk=False)
-        apply_op(p, model, ("goto", k), st)
+        apply_op(p, model, ("gotom", k[1], k[2], k[3]) if isinstance(k, tuple) else ("goto", k), st)
         out = outputs_vec(p, model)
         tot = totals_vec(p, model)
         _REF[key] = (out, tot)
@@ -179,7 +195,7 @@ def check_invariants(model, mode, hist):
         # non-finite reference entries (a documented singular point of the component) must be non-finite here too
         e = np.abs(o[fin] - ref_out[fin]).max(initial=0.0) / sc if (np.array_equal(np.isfinite(o), fin)) else np.inf
         if not e <= tol:
-            viol.append(dict(sig=dict(oracle="history_independence", probe=tag, observable="outputs", model=model.name, after_chk=st["chk"]), msg="%s after history %s: outputs differ from a fresh problem at point %d by %.2e" % (tag, hist, st["k"], e), measure=float(e)))
+            viol.append(dict(sig=dict(oracle="history_independence", probe=tag, observable="outputs", model=model.name, after_chk=st["chk"]), msg="%s after history %s: outputs differ from a fresh problem at point %s by %.2e" % (tag, hist, st["k"], e), measure=float(e)))
 
     def cmp_tot(tag, T=None):
         nonlocal nprobe
@@ -191,7 +207,7 @@ def check_invariants(model, mode, hist):
         e = (np.abs(np.where(fin, t, 0.0) - rt) / sc).max() if np.array_equal(np.isfinite(t), fin) else np.inf
         if not e <= max(tol, 1e-9):
             i, j = np.unravel_index(np.argmax(np.abs(np.where(fin, t, 0.0) - rt) / sc), t.shape)
-            viol.append(dict(sig=dict(oracle="history_independence", probe=tag, observable="totals", model=model.name, after_chk=st["chk"]), msg="%s after history %s: totals differ from a fresh problem at point %d by %.2e of the row scale (entry [%d,%d]: %.8g vs %.8g)" % (tag, hist, st["k"], e, i, j, t[i, j], ref_tot[i, j]), measure=float(e)))
+            viol.append(dict(sig=dict(oracle="history_independence", probe=tag, observable="totals", model=model.name, after_chk=st["chk"]), msg="%s after history %s: totals differ from a fresh problem at point %s by %.2e of the row scale (entry [%d,%d]: %.8g vs %.8g)" % (tag, hist, st["k"], e, i, j, t[i, j], ref_tot[i, j]), measure=float(e)))
 
     if st["consistent"]:
         cmp_out("read")
